@@ -135,6 +135,9 @@ impl Instrumented for RealProblem {
         match self.kind {
             0 => x.iter().map(|v| v * v).sum(),
             2 => x.iter().map(|v| (v * 2.0).floor().abs()).sum(),
+            // linear with an offset: negative objective values of both small and large magnitude, also -0.0 at the origin
+            4 => x.iter().sum::<f64>() - 100.0,
+            5 => -(x.iter().map(|v| v * v).sum::<f64>()),
             3 => {
                 // walled sphere: infeasible (+inf) outside the box of a quarter of the domain width around the origin
                 let r = 0.25 * (self.hi - self.lo);
@@ -211,7 +214,7 @@ pub struct TspProblem {
 }
 impl TspProblem {
     /// kind 0: points on a line (symmetric); 1: asymmetric; 2: very unequal distances (1e-3 .. 1e6);
-    /// 3: one very remote city (1e120 from everything else: (1/d)^beta underflows for beta = 5)
+    /// 3: one very remote city (1e120 from everything else: (1/d)^beta underflows for beta = 5); 4: one missing edge
     pub fn new(kind: u8, dim: usize) -> Self {
         let mut dist = vec![vec![0.0; dim]; dim];
         for i in 0..dim {
@@ -224,6 +227,9 @@ impl TspProblem {
                     0 => (b - a) + 0.125 * ((a * 7.0 + b * 3.0) % 5.0),
                     1 => 1.0 + ((i * 5 + j * 11) % 7) as f64 + if i < j { 0.5 } else { 0.0 },
                     2 => 10f64.powi(((i * 3 + j * 3 + a as usize) % 10) as i32 - 3),
+                    // a missing road: no edge between the cities 1 and 2 (infinite distance)
+                    4 if (i.min(j), i.max(j)) == (1, 2) => f64::INFINITY,
+                    4 => 1.0 + (b - a),
                     _ => {
                         if i == dim - 1 || j == dim - 1 {
                             1e120
